@@ -347,13 +347,13 @@ def check_C03(ctx):
     # C03 subsumes durability (a crash after the last write) and rests on the
     # append-only discipline: a flush that rewrites bytes at or below the last
     # root record can tear into a mixture, so those categories count here too
-    crash_traces(ctx, q(ctx, 8, 16), q(ctx, 3, 8), q(ctx, 50, 100), {"C03", "C02", "C09"}, alltorn=q(ctx, 0, 128))
+    crash_traces(ctx, q(ctx, 8, 16), q(ctx, 3, 4), q(ctx, 50, 80), {"C03", "C02", "C09"}, alltorn=q(ctx, 0, 64))
     return ctx.finish("model_checking",
                       "exhaustive: RootScan.tla (symbolic transcription of the backward root search) over every junk tail of <= 3 (quick) / 4 "
                       "(thorough) symbols from an adversarial alphabet (markers, fragments, wrong offsets/lengths) behind 0-2 real roots: the "
                       "scan terminates and returns the last well-formed root; conformance (fault_enumeration on the real write log): for "
                       "random flush-heavy histories EVERY prefix of the file's write log x truncations of the write in flight (0,1,half,"
-                      "len-1, field edges; thorough: every length of writes <= 128 bytes) plus adversarial junk tails is opened with the "
+                      "len-1, field edges; thorough: every length of writes <= 64 bytes) plus adversarial junk tails is opened with the "
                       "real library and compared by TLC with the durable stack of that log prefix; a sample of recovered stores continues "
                       "with mutations, flushes and reopens; distinct non-trivial = crash images",
                       ASSUME_COMMON + ["a write is the unit of atomic ordering: bytes of one WriteAt land as a prefix (torn) or not at all",
